@@ -261,6 +261,29 @@ class SrvAdapter:
             raise Boom('connect')
         return None
 
+    def _pre(self, sid, ns):
+        """How many packets this step has already queued on the client's
+        own transport (the queues are drained after every step)."""
+        try:
+            eid = self.sio.manager.rooms[ns][None][sid]
+        except Exception:
+            return 0
+        for t, e in self.eid.items():
+            if e == eid:
+                n = 0
+                for p in list(self.socks[t].queue.queue if hasattr(
+                        self.socks[t].queue, 'queue') else
+                        self.socks[t].queue._queue):
+                    # (a binary packet is one text frame + its attachments;
+                    # with msgpack every packet is one bytes frame)
+                    if p is not None and \
+                            p.packet_type == eio_packet.MESSAGE and (
+                                not isinstance(p.data, bytes) or
+                                self.cfg.get('serializer') == 'msgpack'):
+                        n += 1
+                return n
+        return 0
+
     def _auth_tok(self, auth):
         if isinstance(auth, dict) and set(auth) == {'b'}:
             return 'auth:' + auth['b']
@@ -276,7 +299,7 @@ class SrvAdapter:
         def on_connect(ns, target):
             def h(sid, environ, auth):
                 me.hc.append({'h': target, 'ns': ns, 'ev': 'connect',
-                              'sid': me._name(sid),
+                              'sid': me._name(sid), 'pre': me._pre(sid, ns),
                               'args': [me._env_tok(environ),
                                        me._auth_tok(auth)]})
                 return me._connect_behaviour(auth)
@@ -285,7 +308,8 @@ class SrvAdapter:
         def on_disconnect(ns, target):
             def h(sid, reason):
                 me.hc.append({'h': target, 'ns': ns, 'ev': 'disconnect',
-                              'sid': me._name(sid), 'args': [str(reason)]})
+                              'sid': me._name(sid), 'pre': me._pre(sid, ns),
+                              'args': [str(reason)]})
                 if ns in me.flags['raiseDisc']:
                     raise Boom('disconnect')
             return h
@@ -293,7 +317,8 @@ class SrvAdapter:
         def on_event(ns, ev, target):
             def h(sid, *args):
                 me.hc.append({'h': target, 'ns': ns, 'ev': ev,
-                              'sid': me._name(sid), 'args': toks(args)})
+                              'sid': me._name(sid), 'pre': me._pre(sid, ns),
+                              'args': toks(args)})
                 if EVENTS[ev] is None:
                     raise Boom(ev)
                 return EVENTS[ev]()
